@@ -46,6 +46,7 @@ class Obligation:
     props: List[str]
     text: str = ""
     expect_fail: bool = False    # smoke obligations must NOT be provable
+    debug: object = None
 
 
 class St:
